@@ -184,7 +184,11 @@ func (g *c10Gen) operand(depth int) *sx {
 	case 0, 1:
 		return g.ref()
 	case 2:
-		return call("P", g.value())
+		v := g.value()
+		if v.head() == "lit" { // query.Parameter(query.Literal(…)) is the caller's own mistake, not a builder path
+			v = call("i", a("7"))
+		}
+		return call("P", v)
 	case 3:
 		if depth > 0 {
 			n := g.rng.Intn(4)
@@ -947,6 +951,11 @@ func whereExpr(q *cypher.RegularQuery) (cypher.Expression, string) {
 	return rc.Match.Where.Expressions[0], ""
 }
 
+func whereNone(q *cypher.RegularQuery) bool {
+	w, note := whereExpr(q)
+	return w == nil && note == "none"
+}
+
 func oneLine(s string) string {
 	return strings.NewReplacer("\n", " ", "\t", " ", "\r", " ").Replace(s)
 }
@@ -1290,9 +1299,46 @@ func (r *c10Runner) Step(t []string, raw string) string {
 			rk = ks.String()
 		}
 	}
+	// --- the whole query as terms of the clause-level algebra: after Prepare (QM), re-parsed (QR), as applied (QA:
+	// Prepare's effects undone — parameter names blanked, hoisted kinds stripped, WHERE as the caller applied it)
+	qm := queryTerm(pre, nil, false)
+	qmS, qrS, qaS, qtoks, gqm, gqr := qm.String(), "none", "none", "-", "unmodelled", "none"
+	if hasUnmodelled(qm) == "" {
+		gqm = normQueryTerm(qm).String()
+		if t, err := c10Lex(text); err == nil {
+			qtoks = t
+		} else {
+			qtoks = "lex-error " + oneLine(err.Error())
+		}
+		if applied != "none" || whereNone(pre) {
+			var ov *sx
+			if applied != "none" {
+				ov, _ = parseSx(applied)
+			}
+			qa := blankParams(queryTerm(pre, ov, true))
+			if applied == "none" { // nothing was applied as WHERE
+				qa = blankParams(queryTerm(pre, nil, true))
+			}
+			if hasUnmodelled(qa) == "" {
+				qaS = qa.String()
+			}
+		}
+	}
+	if cmp.reErr == "" {
+		if re, err := frontend.ParseCypher(frontend.NewContext(), text); err == nil {
+			qr := queryTerm(re, nil, false)
+			qrS = qr.String()
+			if hasUnmodelled(qr) == "" {
+				gqr = normQueryTerm(qr).String()
+			} else {
+				gqr = "unmodelled"
+			}
+		}
+	}
 	return strings.Join([]string{"toks " + cmp.toks, "gm " + cmp.gm, "gr " + cmp.gr, "M " + cmp.m, "R " + cmp.r, "q " + cmp.q,
 		"params " + params, "str " + str, "b " + bres, "reerr " + cmp.reErr, "text " + c10Quote(text), "lift " + lift,
-		"A " + applied, "RK " + rk, "idem " + idem, "mut " + mutated}, "\t")
+		"A " + applied, "RK " + rk, "idem " + idem, "mut " + mutated,
+		"QM " + qmS, "QR " + qrS, "QA " + qaS, "qtoks " + qtoks, "gqm " + gqm, "gqr " + gqr}, "\t")
 }
 
 // ---------------------------------------------------------------------------------------------------
